@@ -104,6 +104,11 @@ func genCacheCase(t *rapid.T) CacheCase {
 		c.Links = map[string]string{"ln.txt": rapid.SampledFrom([]string{"f2.txt", "sub/f3.txt", "g1.c"}).Draw(t, "link_target")}
 		k := rapid.IntRange(0, n-1).Draw(t, "link_task")
 		c.Tasks[k].Files = append(c.Tasks[k].Files, "ln.txt")
+		if rapid.Bool().Draw(t, "second_link") {
+			// a second one (current -> release-a, standby -> release-b): links can be repointed
+			c.Links["ln2.txt"] = rapid.SampledFrom([]string{"f2.txt", "sub/f3.txt", "g1.c", "f1.txt"}).Draw(t, "link2_target")
+			c.Tasks[k].Files = append(c.Tasks[k].Files, "ln2.txt")
+		}
 	}
 	// with probability 1/4 a directory is reachable through a symbolic link: the files below the link
 	// have matching relative paths of their own (the link's target is hidden, so only the link's path counts)
@@ -147,6 +152,13 @@ func genCacheCase(t *rapid.T) CacheCase {
 			}
 		case k < 12:
 			st = Step{Op: "rmcache", Whole: rapid.Bool().Draw(t, "whole")}
+		case k < 13:
+			if _, two := c.Links["ln2.txt"]; two && rapid.Bool().Draw(t, "swap_links") {
+				st = Step{Op: "swap", File: "ln.txt", File2: "ln2.txt"}
+			} else {
+				pair := rapid.Permutation([]string{"f1.txt", "f2.txt", "extra.txt", "g1.c", "g2.c", "n1.txt"}).Draw(t, "swap_pair")
+				st = Step{Op: "swap", File: pair[0], File2: pair[1]}
+			}
 		default:
 			st = Step{Op: "run"}
 			perm := rapid.Permutation(names).Draw(t, "order")
@@ -477,6 +489,16 @@ func templateCases() []CacheCase {
 	for _, fin := range final {
 		out = append(out, CacheCase{Tasks: linked, Init: map[string]string{"a.txt": "0", "b.txt": "0"}, Links: map[string]string{"ln.txt": "a.txt"}, Steps: []Step{
 			run([]string{"A", "B"}, false, nil), {Op: "write", File: "a.txt", Content: "1"}, fin, fin, {Op: "write", File: "a.txt", Content: "0"}, fin}})
+	}
+	// two dependencies that are links exchange their targets (the switch-over of current and standby);
+	// two regular files exchange their names
+	two := []TaskSpec{{Name: "A", Files: []string{"ln.txt", "ln2.txt"}, NCmds: 1}, {Name: "B", Globs: []string{"l*.txt"}, NCmds: 1}}
+	plain := []TaskSpec{{Name: "A", Files: []string{"a.txt", "b.txt"}, NCmds: 1}, {Name: "B", Globs: []string{"*.txt"}, NCmds: 1}}
+	for _, fin := range final {
+		out = append(out, CacheCase{Tasks: two, Init: map[string]string{"a.txt": "0", "b.txt": "1"}, Links: map[string]string{"ln.txt": "a.txt", "ln2.txt": "b.txt"}, Steps: []Step{
+			run([]string{"A", "B"}, false, nil), {Op: "swap", File: "ln.txt", File2: "ln2.txt"}, fin, fin, {Op: "swap", File: "ln.txt", File2: "ln2.txt"}, fin}})
+		out = append(out, CacheCase{Tasks: plain, Init: map[string]string{"a.txt": "0", "b.txt": "1"}, Steps: []Step{
+			run([]string{"A", "B"}, false, nil), {Op: "swap", File: "a.txt", File2: "b.txt"}, fin, fin, {Op: "swap", File: "a.txt", File2: "b.txt"}, fin}})
 	}
 	return out
 }
